@@ -187,11 +187,14 @@ def corner_specs():
         # or do not): cropped / ellipsised / not wrapped at every width around len(text), exposed at top level and through the
         # pass-through containers (a `len(text) == total` shortcut in set_cell_size shows here)
         wrap(("T", dict(plain=txt, **kw)))
-        for txt in ("ああ̀b", "あ̀あ̀ああ", "a😽​bあ", "ああああ", "àb̀c̀あい", "x あ̀あ̀ああ y")
+        for txt in ("ああ̀b", "あ̀あ̀ああ", "a😽​bあ", "ああああ", "àb̀c̀あい", "x あ̀あ̀ああ y",
+                    # #code points == #cells although no character is one cell wide: [double-width base + zero-width combining] pairs
+                    # (decomposed kana: か + U+3099), alone and mixed with one-cell characters
+                    "がぎぐげご", "あ̀い̀う̀え̀", "😽​😽​😽​", "がaぎbぐ", "がぎ ぐげござ")
         for kw in (dict(overflow="crop", no_wrap=True), dict(overflow="ellipsis", no_wrap=True), dict(no_wrap=True), dict(overflow="crop"),
                    dict(overflow="ellipsis"))
         for wrap in (lambda e: e, lambda e: ("GRP", True, [e]), lambda e: ("ALIGN", {"align": "left"}, e), lambda e: ("CON", None, e),
-                     lambda e: ("STY", e))
+                     lambda e: ("STY", e), lambda e: ("CON", 40, ("ALIGN", {"align": "right"}, e)))
     ] + [
         ("TABLE", {"expand": True}, [({"ratio": 1}, T("a"), T(""), [T("x")]), ({"ratio": 0}, T("b"), T(""), [T("y")]),
                                      ({}, T("c"), T(""), [T("long long long long long long long long text")])]),
@@ -245,6 +248,8 @@ def run(ctx):
         account(ctx, chunk)
     ctx.flush()
     ctx.rule = (
+        "line widths of rich's output are measured by the harness's own first-match scan of rich/_cell_widths.py CELL_WIDTHS "
+        "(lib_layout.cells: independent of rich.cells.cell_len / set_cell_size / chop_cells and of their caches); "
         "hand-written corner trees (one per constructor and option family; crop / ellipsis / no_wrap texts whose character count equals a width while "
         "their cell count does not; ratio=0 tables) x every width 1..smin+13 x four consoles (width 80, width 20, 60 ASCII-only, 60 legacy-Windows "
         "truecolor), then seeded random "
